@@ -1,6 +1,306 @@
-(* C08 - placeholder until Proofs/NoPanic.v is merged *)
-From Xeh Require Import Model.Prelude Model.Vm.
+(* C08 - no source text, input or API call sequence can crash the interpreter.
 
-Theorem C08_pop_never_panics : forall s, pop_data s <> RPanic.
-Proof. intros s. unfold pop_data. destruct (ds s); [discriminate|]. destruct (_ <? _); discriminate. Qed.
-Check C08_pop_never_panics : forall s, pop_data s <> RPanic.
+   Every mirror function returns a result, an error value, [RUnsup] (behaviour outside the
+   model) or [RPanic] - the latter exactly where the Rust code would panic.  For each
+   modelled layer the panic outcome is unreachable:
+     (a) every native word, for every state and every [fops];
+     (b) fetch_and_run / next / run: the only panic of the step function is the fetch
+         outside the code vector, and next / run check is_running first;
+     (c) reverse_changes / rnext;
+     (d) the lexer and token_location: total functions with no panic outcome; token spans
+         are ordered and (for UTF-8 text) inside the text;
+     (e) the bit-string library under [wf]: no panic outcome; every byte index the
+         iterators touch is inside the buffer, the constructors give [wf] values;
+     (f) the builder: code_emit panics iff the debug map is shorter than the code; the
+         invariant [cd_inv] that excludes this is preserved by every eval / compile call;
+         with the flow-stack invariant of Proofs/NoPanicFlow.v no API call sequence from the
+         boot state reaches any panic outcome of eval / compile / next / run / rnext.
+   Property theorems only: each is closed by [exact] of a lemma of Proofs/NoPanic*.v. *)
+From Xeh Require Import Model.Prelude Model.Bits Model.Codec Model.Cell Model.Lexer Model.Fmt
+                        Model.Vm Model.Words Model.Build Model.Boot.
+From Xeh Require Import Proofs.LexLoc.
+From Xeh Require Proofs.NoPanic Proofs.NoPanicLex Proofs.NoPanicBits Proofs.NoPanicBuild Proofs.NoPanicFlow.
+Local Notation length := List.length.
+Local Open Scope nat_scope.
+Local Open Scope list_scope.
+
+(* ---------- (a) native words ---------- *)
+
+Theorem C08_native_words_never_panic : forall fo w f s,
+  native_fn fo w = Some f -> f s <> RPanic.
+Proof. exact NoPanic.native_no_panic. Qed.
+Check C08_native_words_never_panic : forall fo w f s,
+  native_fn fo w = Some f -> f s <> RPanic.
+
+(* ---------- (b) step, next, run ---------- *)
+
+(* the instruction limit is reached: the step fails with ELimit before it fetches *)
+Definition meter_exhausted (s : state) : bool :=
+  match insn_limit s with Some l => (l <=? meter s)%Z | None => false end.
+
+(* the step function panics exactly on a fetch outside the code vector *)
+Theorem C08_step_panics_iff_fetch_outside_code : forall fo s,
+  fetch_and_run (native_fn fo) s = RPanic <-> (is_running s = false /\ meter_exhausted s = false).
+Proof. exact NoPanic.far_panic_iff. Qed.
+Check C08_step_panics_iff_fetch_outside_code : forall fo s,
+  fetch_and_run (native_fn fo) s = RPanic <-> (is_running s = false /\ meter_exhausted s = false).
+
+Theorem C08_step_never_panics_when_running : forall fo s,
+  is_running s = true -> fetch_and_run (native_fn fo) s <> RPanic.
+Proof. exact NoPanic.far_no_panic. Qed.
+Check C08_step_never_panics_when_running : forall fo s,
+  is_running s = true -> fetch_and_run (native_fn fo) s <> RPanic.
+
+Theorem C08_next_never_panics : forall fo s, next (native_fn fo) s <> RPanic.
+Proof. exact NoPanic.next_no_panic. Qed.
+Check C08_next_never_panics : forall fo s, next (native_fn fo) s <> RPanic.
+
+Theorem C08_run_never_panics : forall fo fuel s, run (native_fn fo) fuel s <> Some RPanic.
+Proof. exact NoPanic.run_no_panic. Qed.
+Check C08_run_never_panics : forall fo fuel s, run (native_fn fo) fuel s <> Some RPanic.
+
+(* ---------- (c) reverse stepping ---------- *)
+
+Theorem C08_reverse_changes_never_panics : forall r s, reverse_changes r s <> RPanic.
+Proof. exact NoPanic.reverse_changes_no_panic. Qed.
+Check C08_reverse_changes_never_panics : forall r s, reverse_changes r s <> RPanic.
+
+Theorem C08_rnext_never_panics : forall s, rnext s <> RPanic.
+Proof. exact NoPanic.rnext_no_panic. Qed.
+Check C08_rnext_never_panics : forall s, rnext s <> RPanic.
+
+(* ---------- (d) lexer and token_location ---------- *)
+
+Theorem C08_lex_next_total : forall l, exists t l', lex_next l = (t, l').
+Proof. exact NoPanicLex.lex_next_total. Qed.
+Check C08_lex_next_total : forall l, exists t l', lex_next l = (t, l').
+
+Theorem C08_token_location_total : forall s p, exists line col ls le,
+  token_location s p = (line, col, ls, le).
+Proof. exact NoPanicLex.token_location_total. Qed.
+Check C08_token_location_total : forall s p, exists line col ls le,
+  token_location s p = (line, col, ls, le).
+
+Theorem C08_lex_span_ordered : forall s t a b, In (t, a, b) (lex_string s) -> a <= b.
+Proof. exact NoPanicLex.lex_span_ordered. Qed.
+Check C08_lex_span_ordered : forall s t a b, In (t, a, b) (lex_string s) -> a <= b.
+
+(* for UTF-8 text every token span - the span of a final parse-error token included - is
+   ordered and inside the text (for byte strings that are not UTF-8 this is false: see
+   lex_reaches_end_refuted in Proofs/LexProofs.v) *)
+Theorem C08_lex_span_inside : forall s t a b,
+  valid_utf8 s = true -> In (t, a, b) (lex_string s) -> a <= b /\ b <= String.length s.
+Proof. exact NoPanicLex.lex_span_inside_full. Qed.
+Check C08_lex_span_inside : forall s t a b,
+  valid_utf8 s = true -> In (t, a, b) (lex_string s) -> a <= b /\ b <= String.length s.
+
+(* ---------- (e) bit-string library ---------- *)
+
+Theorem C08_bit_index_safe : forall c i,
+  wf c -> cstart c <= i < cend c -> i / 8 < length (cdata c).
+Proof. exact NoPanicBits.bit_index_safe. Qed.
+Check C08_bit_index_safe : forall c i,
+  wf c -> cstart c <= i < cend c -> i / 8 < length (cdata c).
+
+(* the bytes [bits] reads *)
+Theorem C08_bits_index_safe : forall c, wf c ->
+  Forall (fun i => i / 8 < length (cdata c)) (seq (cstart c) (clen c)).
+Proof. exact NoPanicBits.bits_index_safe. Qed.
+Check C08_bits_index_safe : forall c, wf c ->
+  Forall (fun i => i / 8 < length (cdata c)) (seq (cstart c) (clen c)).
+
+(* the byte indices Iter8::next reads, following [iter8_go]: data[idx], and data[idx + 1]
+   when the group crosses a byte boundary *)
+Fixpoint iter8_reads (e fuel pos : nat) : list nat :=
+  match fuel with
+  | O => []
+  | S f =>
+    if e <=? pos then [] else
+    let len := Nat.min (e - pos) 8 in
+    let idx := pos / 8 in
+    let n := snd (cut_bits 0 pos (pos + len)) in
+    (idx :: (if n <? len then [idx + 1] else [])) ++ iter8_reads e f (pos + len)
+  end.
+
+Theorem C08_iter8_index_safe : forall c, wf c ->
+  Forall (fun i => i < length (cdata c)) (iter8_reads (cend c) (clen c) (cstart c)).
+Proof. exact NoPanicBits.iter8_index_safe. Qed.
+Check C08_iter8_index_safe : forall c, wf c ->
+  Forall (fun i => i < length (cdata c)) (iter8_reads (cend c) (clen c) (cstart c)).
+
+(* slice / bytes_of: &data[start / 8 .. upper_bound_index(end)] *)
+Theorem C08_bytes_range_safe : forall c, wf c ->
+  cstart c / 8 <= ubi (cend c) /\ ubi (cend c) <= length (cdata c).
+Proof. exact NoPanicBits.bytes_range_safe. Qed.
+Check C08_bytes_range_safe : forall c, wf c ->
+  cstart c / 8 <= ubi (cend c) /\ ubi (cend c) <= length (cdata c).
+
+Theorem C08_from_int_wf : forall v w o, wf (from_int v w o).
+Proof. exact NoPanicBits.from_int_wf'. Qed.
+Check C08_from_int_wf : forall v w o, wf (from_int v w o).
+
+Theorem C08_detach_wf : forall u c, wf c -> wf (detach u c).
+Proof. exact NoPanicBits.detach_wf. Qed.
+Check C08_detach_wf : forall u c, wf c -> wf (detach u c).
+
+Theorem C08_append_wf : forall u c t, wf c -> wf t -> wf (Bits.append u c t).
+Proof. exact NoPanicBits.append_wf. Qed.
+Check C08_append_wf : forall u c t, wf c -> wf t -> wf (Bits.append u c t).
+
+Theorem C08_invert_wf : forall u c, wf c -> wf (invert u c).
+Proof. exact NoPanicBits.invert_wf. Qed.
+Check C08_invert_wf : forall u c, wf c -> wf (invert u c).
+
+(* ---------- (f) the builder ---------- *)
+
+(* the debug map covers the code *)
+Definition cd_inv (s : state) : Prop := length (code s) <= length (dbg s).
+
+Definition res_all {A} (P : state -> Prop) (r : res A) : Prop :=
+  match r with
+  | ROk _ s => P s
+  | RErr _ _ s => P s
+  | _ => True
+  end.
+
+Theorem C08_code_emit_panics_iff : forall op s,
+  code_emit op s = RPanic <-> length (dbg s) < length (code s).
+Proof. exact NoPanicBuild.code_emit_panic_iff. Qed.
+Check C08_code_emit_panics_iff : forall op s,
+  code_emit op s = RPanic <-> length (dbg s) < length (code s).
+
+Theorem C08_code_emit_never_panics : forall op s, cd_inv s -> code_emit op s <> RPanic.
+Proof. exact NoPanicBuild.code_emit_no_panic. Qed.
+Check C08_code_emit_never_panics : forall op s, cd_inv s -> code_emit op s <> RPanic.
+
+Theorem C08_code_emit_keeps_inv : forall op s, cd_inv s -> res_all cd_inv (code_emit op s).
+Proof. exact NoPanicBuild.code_emit_cd. Qed.
+Check C08_code_emit_keeps_inv : forall op s, cd_inv s -> res_all cd_inv (code_emit op s).
+
+Theorem C08_step_keeps_inv : forall fo s,
+  cd_inv s -> res_all cd_inv (fetch_and_run (native_fn fo) s).
+Proof. exact NoPanicBuild.far_cd_native. Qed.
+Check C08_step_keeps_inv : forall fo s,
+  cd_inv s -> res_all cd_inv (fetch_and_run (native_fn fo) s).
+
+Theorem C08_context_close_keeps_inv : forall fo rf s,
+  cd_inv s -> res_all cd_inv (context_close fo rf s).
+Proof. exact NoPanicBuild.context_close_cd. Qed.
+Check C08_context_close_keeps_inv : forall fo rf s,
+  cd_inv s -> res_all cd_inv (context_close fo rf s).
+
+Theorem C08_build_unwind_keeps_inv : forall depth inputs dsl heapl s,
+  cd_inv s -> cd_inv (build_unwind depth inputs dsl heapl s).
+Proof. exact NoPanicBuild.build_unwind_cd. Qed.
+Check C08_build_unwind_keeps_inv : forall depth inputs dsl heapl s,
+  cd_inv s -> cd_inv (build_unwind depth inputs dsl heapl s).
+
+(* whole source submissions keep the invariant (all immediate words, let patterns, nested
+   meta contexts, immediate user words, unwinding of a failed build) *)
+Theorem C08_eval_keeps_inv : forall fo pr rf bf src s,
+  cd_inv s -> res_all cd_inv (eval fo pr rf bf src s).
+Proof. exact NoPanicBuild.eval_cd. Qed.
+Check C08_eval_keeps_inv : forall fo pr rf bf src s,
+  cd_inv s -> res_all cd_inv (eval fo pr rf bf src s).
+
+Theorem C08_compile_keeps_inv : forall fo pr rf bf src s,
+  cd_inv s -> res_all cd_inv (compile fo pr rf bf src s).
+Proof. exact NoPanicBuild.compile_cd. Qed.
+Check C08_compile_keeps_inv : forall fo pr rf bf src s,
+  cd_inv s -> res_all cd_inv (compile fo pr rf bf src s).
+
+Theorem C08_rnext_keeps_inv : forall s, cd_inv s -> res_all cd_inv (rnext s).
+Proof. exact NoPanicBuild.rnext_cd. Qed.
+Check C08_rnext_keeps_inv : forall s, cd_inv s -> res_all cd_inv (rnext s).
+
+(* ---------- API call sequences ---------- *)
+
+(* the states an embedding program can reach from boot through eval, compile, next, run,
+   rnext, setting limits and switching recording: every property that holds of boot and is
+   kept by every API call holds of s *)
+Definition api_reach (fo : fops) (pr : string -> option Z) (s : state) : Prop :=
+  forall P : state -> Prop,
+    P boot ->
+    (forall s rf bf src s', P s -> res_state (eval fo pr rf bf src s) = Some s' -> P s') ->
+    (forall s rf bf src s', P s -> res_state (compile fo pr rf bf src s) = Some s' -> P s') ->
+    (forall s s', P s -> res_state (next (native_fn fo) s) = Some s' -> P s') ->
+    (forall s fuel r s', P s -> run (native_fn fo) fuel s = Some r -> res_state r = Some s' -> P s') ->
+    (forall s s', P s -> res_state (rnext s) = Some s' -> P s') ->
+    (forall s i h k, P s -> P (set_limits s i h k)) ->
+    (forall s l, P s -> P (set_rlog s l)) ->
+    P s.
+
+(* in every reachable state: next, run, rnext never panic, and emitting an instruction
+   (what every compiled token does) never panics - the part that needs [cd_inv] only *)
+Theorem C08_api_step_and_emit_never_panic : forall fo pr s, api_reach fo pr s ->
+  next (native_fn fo) s <> RPanic /\
+  (forall fuel, run (native_fn fo) fuel s <> Some RPanic) /\
+  rnext s <> RPanic /\
+  (forall op, code_emit op s <> RPanic).
+Proof. exact NoPanicBuild.api_no_panic_partial. Qed.
+Check C08_api_step_and_emit_never_panic : forall fo pr s, api_reach fo pr s ->
+  next (native_fn fo) s <> RPanic /\
+  (forall fuel, run (native_fn fo) fuel s <> Some RPanic) /\
+  rnext s <> RPanic /\
+  (forall op, code_emit op s <> RPanic).
+
+(* the whole API: in every reachable state no source text makes eval or compile panic, and
+   next / run / rnext never panic.  The builder has, besides code_emit, three more panic
+   outcomes ([backpatch] outside the code, [backpatch_jump] on an instruction that is not a
+   jump, [i_def_end] on a dictionary entry that is not a function); Proofs/NoPanicFlow.v
+   excludes them with an invariant on the flow stack ("every entry points at instructions
+   of its kind below the code mark of its context, and at a function entry below the
+   dictionary mark") carried through every immediate word, let pattern, meta-context close,
+   immediate user word and the unwinding of a failed build. *)
+Theorem C08_api_never_panics : forall fo pr s, api_reach fo pr s ->
+  (forall rf bf src, eval fo pr rf bf src s <> RPanic /\ compile fo pr rf bf src s <> RPanic) /\
+  next (native_fn fo) s <> RPanic /\
+  (forall fuel, run (native_fn fo) fuel s <> Some RPanic) /\
+  rnext s <> RPanic.
+Proof. exact NoPanicFlow.api_no_panic. Qed.
+Check C08_api_never_panics : forall fo pr s, api_reach fo pr s ->
+  (forall rf bf src, eval fo pr rf bf src s <> RPanic /\ compile fo pr rf bf src s <> RPanic) /\
+  next (native_fn fo) s <> RPanic /\
+  (forall fuel, run (native_fn fo) fuel s <> Some RPanic) /\
+  rnext s <> RPanic.
+
+(* the same as an inductive invariant of the API: it holds of boot, every call keeps it (in
+   the state a result or an error leaves behind), and under it eval / compile do not panic *)
+Theorem C08_builder_invariant_exists : forall fo pr, exists Inv : state -> Prop,
+  Inv boot /\
+  (forall s rf bf src, Inv s ->
+     eval fo pr rf bf src s <> RPanic /\ res_all Inv (eval fo pr rf bf src s) /\
+     compile fo pr rf bf src s <> RPanic /\ res_all Inv (compile fo pr rf bf src s)) /\
+  (forall s, Inv s -> res_all Inv (next (native_fn fo) s)) /\
+  (forall s fuel, Inv s -> match run (native_fn fo) fuel s with Some r => res_all Inv r | None => True end) /\
+  (forall s, Inv s -> res_all Inv (rnext s)).
+Proof. exact NoPanicFlow.builder_invariant_exists. Qed.
+Check C08_builder_invariant_exists : forall fo pr, exists Inv : state -> Prop,
+  Inv boot /\
+  (forall s rf bf src, Inv s ->
+     eval fo pr rf bf src s <> RPanic /\ res_all Inv (eval fo pr rf bf src s) /\
+     compile fo pr rf bf src s <> RPanic /\ res_all Inv (compile fo pr rf bf src s)) /\
+  (forall s, Inv s -> res_all Inv (next (native_fn fo) s)) /\
+  (forall s fuel, Inv s -> match run (native_fn fo) fuel s with Some r => res_all Inv r | None => True end) /\
+  (forall s, Inv s -> res_all Inv (rnext s)).
+
+(* ---------- non-vacuity ---------- *)
+
+(* the panic outcome exists in the model and is reachable where the hypotheses fail *)
+Example C08_step_outside_code_nonvacuous : forall fo, fetch_and_run (native_fn fo) boot = RPanic.
+Proof. intros fo. reflexivity. Qed.
+
+Example C08_code_emit_nonvacuous :
+  code_emit ONop (set_code boot [ONop]) = RPanic /\ cd_inv boot.
+Proof. split; [reflexivity|]. unfold cd_inv. cbn. lia. Qed.
+
+Example C08_api_reach_nonvacuous : forall fo pr, api_reach fo pr boot.
+Proof. exact NoPanicBuild.api_reach_boot. Qed.
+
+Example C08_lex_span_nonvacuous :
+  valid_utf8 "1 |zz"%string = true /\
+  exists e x y, In (TErr e x y, 2, 4) (lex_string "1 |zz"%string).
+Proof. split; [reflexivity|]. vm_compute. do 3 eexists. right. right. left. reflexivity. Qed.
+
+Example C08_native_nonvacuous : forall fo, exists f, native_fn fo "+"%string = Some f.
+Proof. intros fo. eexists. reflexivity. Qed.
